@@ -71,3 +71,9 @@ Theorem C07_model_parfront : forall K n, mirror K ->
       forall x y, In x (seq 0 n) -> In y (seq 0 n) -> bucket_id P x < bucket_id P y -> bucket_id c x < bucket_id c y.
 Proof. exact model_parfront_every_optimum. Qed.
 Print Assumptions C07_model_parfront.
+
+(** the ParFront merge only asks whether arcs are robust: a positive common factor of the table does not change it *)
+From Corankco Require Import Scaling.
+Theorem C07_parfront_scale_invariant : forall k K P0, 0 < k -> parfront_from (scale_table k K) P0 = parfront_from K P0.
+Proof. intros k K P0 H. apply parfront_scale. exact H. Qed.
+Print Assumptions C07_parfront_scale_invariant.
